@@ -7,13 +7,13 @@ package main
 
 import (
 	"fmt"
-	"sync"
 	"go/constant"
 	"go/token"
 	"go/types"
 	"sort"
 	"strconv"
 	"strings"
+	"sync"
 
 	"golang.org/x/tools/go/ssa"
 )
@@ -191,16 +191,16 @@ func mk(op, s string, v ssa.Value, args ...*Term) *Term {
 
 // TB builds terms for the values of one function.
 type TB struct {
-	p      *Program
-	fn     *ssa.Function
-	parent *TB                       // builder of the enclosing function (for closures)
-	bind   map[*ssa.FreeVar]ssa.Value // free variable -> value in parent
-	memo   map[ssa.Value]*Term
-	active map[ssa.Value]bool
-	loadID map[ssa.Value]int
+	p         *Program
+	fn        *ssa.Function
+	parent    *TB                        // builder of the enclosing function (for closures)
+	bind      map[*ssa.FreeVar]ssa.Value // free variable -> value in parent
+	memo      map[ssa.Value]*Term
+	active    map[ssa.Value]bool
+	loadID    map[ssa.Value]int
 	nextEpoch int
-	depth  int
-	stack  []*ssa.Function
+	depth     int
+	stack     []*ssa.Function
 	// NoGlobalInit disables the resolution of package variables to their
 	// initialiser.
 	NoGlobalInit bool
@@ -422,7 +422,11 @@ func (tb *TB) build(v ssa.Value) *Term {
 		seenStr := map[string]bool{}
 		var collect func(ph *ssa.Phi)
 		collect = func(ph *ssa.Phi) {
-			for _, e := range ph.Edges {
+			allowed := tb.p.usedEdges(ph)
+			for i, e := range ph.Edges {
+				if allowed != nil && !allowed[i] {
+					continue // no use of this Phi is reachable with the value of this edge
+				}
 				if p2, ok := e.(*ssa.Phi); ok && p2.Comment == ph.Comment && p2.Comment != "" {
 					if !seenPhi[p2] {
 						seenPhi[p2] = true
@@ -442,6 +446,9 @@ func (tb *TB) build(v ssa.Value) *Term {
 			}
 		}
 		collect(x)
+		if len(t.Args) == 1 && tb.p.usedEdges(x) != nil {
+			return t.Args[0] // every use sits behind a test that leaves one incoming value
+		}
 		sort.Slice(t.Args, func(i, j int) bool { return t.Args[i].String() < t.Args[j].String() })
 		return t
 	case *ssa.Range:
